@@ -140,7 +140,22 @@ def _run_check(mod, prop, tier, seed, replay, tmp, jobs_n, timeout, t0):
     selftest_note = st.stdout.strip().splitlines()[-1] if st.stdout.strip() else ''
 
     jobs = []
+    rerun = None
     if replay:
+        try:
+            with open(replay) as f:
+                payload = json.load(f)
+            rerun = payload.get('case', payload) if isinstance(payload, dict) else None
+            rerun = rerun if isinstance(rerun, dict) and 'rerun_unit' in rerun else None
+        except Exception:
+            rerun = None
+    if rerun is not None:
+        # replay of "a worker crashed while running this unit": re-execute the unit, up to three attempts
+        for attempt in range(3):
+            j = _Job(prop, rerun['rerun_unit'], rerun.get('tier', tier), int(rerun.get('seed', seed)), tmp, 'rerun%d' % attempt, 4, rerun.get('unit', 'rerun'))
+            j.threads_cost = 16
+            jobs.append(j)
+    elif replay:
         j = _Job(prop, 'replay:' + os.path.abspath(replay), tier, seed, tmp, 'replay', 4, 'replay')
         j.threads_cost = 1
         jobs.append(j)
@@ -159,6 +174,7 @@ def _run_check(mod, prop, tier, seed, replay, tmp, jobs_n, timeout, t0):
     harness_errors = []
     violations = []
     results = []
+    crash_investigations = 0
     for j in jobs:
         res = j.result()
         if j.timed_out:
@@ -167,19 +183,44 @@ def _run_check(mod, prop, tier, seed, replay, tmp, jobs_n, timeout, t0):
         if res is None or (j.rc is not None and j.rc != 0 and not (res and res.get('ok'))):
             if j.rc is not None and j.rc < 0 or res is None:
                 # the worker died (signal / abort inside native code): re-run with case tracing to find the case
-                tj = _Job(prop, j.what, tier, seed, tmp, j.label.replace('/', '_'), j.threads, j.label, trace=True)
-                tj.threads_cost = 1
-                _run_jobs([tj], 1, timeout)
-                tres = tj.result()
+                # (memory corruption does not always crash at the same place: the traced re-run is attempted up to three times;
+                #  only the first two crashed units are investigated case by case, further ones are reported at unit level)
+                crash_investigations += 1
+                if crash_investigations > 2 and j.rc is not None and j.rc < 0:
+                    violations.append({'msg': 'worker process killed by signal %d while running unit %s: a crash of the library is never a clean rejection' % (-j.rc, j.label),
+                                       'case': {'rerun_unit': j.what, 'unit': j.label, 'tier': tier, 'seed': seed, 'signal': -j.rc}, 'finding': None, 'unit': j.label})
+                    continue
+                for attempt in range(3):
+                    tj = _Job(prop, j.what, tier, seed, tmp, '%s-try%d' % (j.label.replace('/', '_'), attempt), j.threads, j.label, trace=True)
+                    tj.threads_cost = 1
+                    _run_jobs([tj], 1, timeout)
+                    tres = tj.result()
+                    if tres is None and os.path.exists(tj.trace_file):
+                        break
+                case = None
                 if tres is None and os.path.exists(tj.trace_file):
-                    with open(tj.trace_file) as f:
-                        case = json.load(f)
+                    try:
+                        with open(tj.trace_file) as f:
+                            case = json.load(f)
+                    except Exception:      # the process died while the case was being persisted
+                        case = None
+                if case is not None:
                     violations.append({'msg': 'worker process died (rc=%s) while executing this case: a crash is never a clean rejection' % tj.rc,
                                        'case': case, 'finding': None, 'unit': j.label})
                     continue
                 if tres is not None and tres.get('ok'):
-                    harness_errors.append('unit %s died (rc=%s) but the traced re-run completed: not reproducible\n%s' % (j.label, j.rc, j.tail()))
+                    if j.rc is not None and j.rc < 0:
+                        # killed by a signal inside native code (abort / segmentation fault) and not pinned to one case by three traced re-runs:
+                        # memory corruption crashes at varying places. The replay file names the unit; --replay re-executes it (several attempts).
+                        violations.append({'msg': 'worker process killed by signal %d while running unit %s (not reproduced case by case in 3 traced re-runs): a crash of the library is never a clean rejection' % (-j.rc, j.label),
+                                           'case': {'rerun_unit': j.what, 'unit': j.label, 'tier': tier, 'seed': seed, 'signal': -j.rc}, 'finding': None, 'unit': j.label})
+                    else:
+                        harness_errors.append('unit %s died (rc=%s) but the traced re-run completed: not reproducible\n%s' % (j.label, j.rc, j.tail()))
                     res = tres
+                elif j.rc is not None and j.rc < 0:
+                    violations.append({'msg': 'worker process killed by signal %d while running unit %s (the failing case could not be persisted): a crash of the library is never a clean rejection' % (-j.rc, j.label),
+                                       'case': {'rerun_unit': j.what, 'unit': j.label, 'tier': tier, 'seed': seed, 'signal': -j.rc}, 'finding': None, 'unit': j.label})
+                    continue
                 else:
                     harness_errors.append('unit %s died (rc=%s) and no case could be captured\n%s' % (j.label, j.rc, j.tail()))
                     continue
